@@ -200,6 +200,48 @@ def extent_rules(repo, res):
                      ('photutils.aperture.rectangle.RectangularAnnulus', 'self._calc_extents(self.w_out, self.h_out, self.theta)')):
         SP.returns_match(repo, res, 'SPEC', f'{cn}._xy_extents', [spec], 'half-extents of the (outer) shape')
 
+
+AP = 'photutils.aperture.'
+EXTRA_SPECS = [
+    (AP + 'circle.CircularAperture.area', 'ret', 'math.pi * self.r ** 2', 'pi r^2'),
+    (AP + 'circle.CircularAnnulus.area', 'ret', 'math.pi * (self.r_out ** 2 - self.r_in ** 2)', 'pi (r_out^2 - r_in^2)'),
+    (AP + 'ellipse.EllipticalAperture.area', 'ret', 'math.pi * self.a * self.b', 'pi a b'),
+    (AP + 'ellipse.EllipticalAnnulus.area', 'ret', 'math.pi * (self.a_out * self.b_out - self.a_in * self.b_in)',
+     'pi (a_out b_out - a_in b_in): outer minus inner ellipse, each with its own semi-axes'),
+    (AP + 'rectangle.RectangularAperture.area', 'ret', 'self.w * self.h', 'w h'),
+    (AP + 'rectangle.RectangularAnnulus.area', 'ret', 'self.w_out * self.h_out - self.w_in * self.h_in', 'outer minus inner rectangle'),
+    (AP + 'bounding_box.BoundingBox.intersection', 'test', 'ixmax < ixmin or iymax < iymin', 'no intersection iff the boxes are disjoint along x OR along y'),
+    (AP + 'bounding_box.BoundingBox.intersection', 'stmt', 'ixmin = max(self.ixmin, other.ixmin)', 'intersection lower x'),
+    (AP + 'bounding_box.BoundingBox.intersection', 'stmt', 'ixmax = min(self.ixmax, other.ixmax)', 'intersection upper x'),
+    (AP + 'bounding_box.BoundingBox.intersection', 'stmt', 'iymin = max(self.iymin, other.iymin)', 'intersection lower y'),
+    (AP + 'bounding_box.BoundingBox.intersection', 'stmt', 'iymax = min(self.iymax, other.iymax)', 'intersection upper y'),
+    (AP + 'bounding_box.BoundingBox.intersection', 'ret', 'BoundingBox(ixmin=ixmin, ixmax=ixmax, iymin=iymin, iymax=iymax) ||| None ||| '
+     'BoundingBox(ixmin=max(self.ixmin, other.ixmin), ixmax=min(self.ixmax, other.ixmax), iymin=max(self.iymin, other.iymin), iymax=min(self.iymax, other.iymax))',
+     'the overlap box or None'),
+    (AP + 'bounding_box.BoundingBox.union', 'ret',
+     'BoundingBox(ixmin=min((self.ixmin, other.ixmin)), ixmax=max((self.ixmax, other.ixmax)), iymin=min((self.iymin, other.iymin)), iymax=max((self.iymax, other.iymax))) ||| '
+     'BoundingBox(ixmin=min(self.ixmin, other.ixmin), ixmax=max(self.ixmax, other.ixmax), iymin=min(self.iymin, other.iymin), iymax=max(self.iymax, other.iymax))',
+     'the smallest box containing both'),
+    (AP + 'bounding_box.BoundingBox.shape', 'ret', '(self.iymax - self.iymin, self.ixmax - self.ixmin)', '(ny, nx)'),
+    (AP + 'bounding_box.BoundingBox.center', 'ret', '(0.5 * (self.iymax - 1 + self.iymin), 0.5 * (self.ixmax - 1 + self.ixmin))', '(y, x) centre of the pixel box'),
+]
+SKY_SPECS = [
+    (AP + 'core.SkyAperture._to_pixel_params', 'stmt', 'value = (value / pixscale).to(u.pixel).value', 'angular sizes divided by the pixel scale as Quantities and converted to pixels'),
+    (AP + 'core.SkyAperture._to_pixel_params', 'stmt', 'value = (value + angle).to(u.radian)', 'theta offset by the WCS rotation, in radians'),
+    (AP + 'core.PixelAperture._to_sky_params', 'stmt', 'value = (value * u.pix * pixscale).to(u.arcsec)', 'pixel sizes times the pixel scale, to arcsec'),
+    (AP + 'core.PixelAperture._to_sky_params', 'stmt', 'value = value - angle.to(u.rad)', 'theta minus the WCS rotation'),
+]
+
+
+def extra_rules(repo, res):
+    from .common import apply_specs
+    apply_specs(repo, res, EXTRA_SPECS)
+
+
+def sky_rules(repo, res):
+    from .common import apply_specs
+    apply_specs(repo, res, SKY_SPECS)
+
 def run(repo, tier):
     res = Result(PROP)
     res.explanation = (
@@ -215,6 +257,8 @@ def run(repo, tier):
     bbox_rules(repo, res)
     aperture_rules(repo, res)
     angle_unit_rules(repo, res)
+    extra_rules(repo, res)
+    sky_rules(repo, res)
     run_L4(repo, res)
     run_axis(repo, res, MODS)
     run_deadstore(repo, res, MODS)
